@@ -625,7 +625,8 @@ def step(w, ev):
         d1 = repo_dump(conn)
         if digest(d1) != k0:
             damaged = True
-            problems.append(Problem(dict(isig, what='%s-aliases-repository:%s' % (group, where_differs(d0, d1))),
+            where = where_differs(d0, d1)
+            problems.append(Problem(dict(isig, what='%s-aliases-repository:%s' % (group, where)),
                                     'repository unchanged by changes to a client-side object',
                                     'repository dump differs in: %s' % where_differs(d0, d1)))
             break
@@ -957,7 +958,7 @@ def _kref_events():
     ev.append(_ev('create', inst=rinst('x', ba('ns1')), ns=None))
     ev.append(_ev('create', inst=rinst('y', ba('ns1')), ns=None))
     ev.append(_ev('create', inst=rinst('x', ba('ns1', v='A')), ns=None))
-    ev.append(_ev('create', inst=rinst('x', ba('NS1', cls='b', kn='K1')), ns=None))   # reference spelled in other case
+    ev.append(_ev('create', inst=rinst('x', ba('NS1', cls='b', kn='K1')), ns=None))  # reference in other case
     ev.append(_ev('create', inst=rinst('x', ba('ns2')), ns='ns2'))
     ev.append(_ev('create', inst=rinst('x', ba('ns1'), t=ba('ns1')), ns=None))
     ev.append(_ev('create', inst=rinst('x', ba('ns1'), t=ba('ns2')), ns=None))       # two namespaces
@@ -965,7 +966,7 @@ def _kref_events():
     ev.append(_ev('create', inst=rinst('x', ba('ns1'), t=ba(UNKNOWN_NS)), ns=None))
     ev.append(_ev('create', inst=rinst('x', ba('ns1'), t=None), ns=None))             # NULL reference
     ev.append(_ev('create', inst=rinst('x', None), ns=None))                          # NULL key reference
-    ev.append(_ev('create', inst=rinst('x', ba(None)), ns=None))                      # reference without namespace
+    ev.append(_ev('create', inst=rinst('x', ba(None)), ns=None))                      # reference without ns
     ev.append(_ev('create', inst=rinst('x', ba('ns1', host='h.example')), ns=None))
     ev.append(_ev('create', inst=INST('R', [P('k1', 'string', 'x'), P('p', 'uint8', 1)]), ns=None))
     ev.append(_ev('create', inst=INST('R', [P('k1', 'string', 'x'), P('r', 'string', 'a')]), ns=None))
